@@ -46,9 +46,9 @@ theorem selectCore_inv {e : Env} {pool : List Tx} (hp : PoolOk pool) (he : EnvOk
               · rw [hsc]; omega
               · simpa using c6
               · simpa using c7
-        by_cases csw : (!s.byFee && (decide (bpw ≥ e.prioSize) || decide (it.prio ≤ MIN_HIGH_PRIORITY_BITS))) = true
+        by_cases csw : (!s.byFee && (decide (bpw ≥ e.prioSize) || decide (it.prio ≤ e.minHighPrio))) = true
         · simp only [csw, if_true, Bool.true_and]
-          by_cases c5 : (decide (bpw > e.prioSize) || decide (it.prio < MIN_HIGH_PRIORITY_BITS)) = true
+          by_cases c5 : (decide (bpw > e.prioSize) || decide (it.prio < e.minHighPrio)) = true
           · simp only [c5, if_true]
             exact Inv_push law (Inv_switch law h) true it hok
           · simp only [c5]
@@ -212,7 +212,7 @@ theorem prepLoop_inv {e : Env} {pool : List Tx} (law : QueueLaw ops) (byFee : Bo
 
 theorem initSt_inv {e : Env} {pool : List Tx} (hp : PoolOk pool) (he : EnvOk e) (law : QueueLaw ops)
     {p : Prep Q} (h : PrepInv e pool law p) : Inv e pool law (initSt e p) := by
-  have hU : BLOCK_HEADER_OVERHEAD * WITNESS_SCALE + e.cbWeight < U32 := Nat.lt_trans he.base he.maxU32
+  have hU : e.headerOverhead * WITNESS_SCALE + e.cbWeight < U32 := Nat.lt_trans he.base he.maxU32
   refine
     { selValid := by intro j hj; cases hj
       selNodup := List.nodup_nil
